@@ -104,10 +104,12 @@ bool c04_run_parse_ep(const c04_op *op, c04_res *r, bool reuse)
 			c04_bad(r, "harness:no-such-chain");
 			return true;
 		}
-		if (op->p[0] == 8 || op->p[0] == 9) {
+		if (op->p[0] == 8 || op->p[0] == 9 || (op->p[0] == 7 && ((op->p[3] >> 24) & 0xFF) % 4 != 0)) {
 			st.lzma.ext_size_low = (uint32_t)op->p[1];
 			st.lzma.ext_size_high = (uint32_t)(op->p[1] >> 32);
 		}
+		if (op->p[0] < 24)
+			c04_chain_mods(&st, op->p[3], false);
 		size_t out_size = op->p[2] == 0 ? (size_t)1 << 18 : (size_t)(op->p[2] - 1);
 		uint8_t *in = c04_dup(op->in, op->in_len);
 		uint8_t *out = c04_xmalloc(out_size);
@@ -126,6 +128,7 @@ bool c04_run_parse_ep(const c04_op *op, c04_res *r, bool reuse)
 		r->crc = lzma_crc32(out, out_pos, 0);
 		free(in);
 		free(out);
+		c04_chain_done(&st);
 		return true;
 	}
 	if (!strcmp(ep, "bhdr") || !strcmp(ep, "bbuf")) {
